@@ -473,16 +473,33 @@ class Mismatch(AssertionError):
     pass
 
 
+_HCTX = [None, 0]
+
+
+def hist_context():
+    """One engine context serves up to 50 consecutive histories of a worker
+    (compiling the prelude costs more than a whole history); every history
+    starts by rebinding V to four fresh arrays."""
+    if _HCTX[0] is None or _HCTX[1] >= 50:
+        m = engine.load()
+        ctx = m.Context(time_limit=10)
+        st, v = run_eval(hist_prelude(), ctx=ctx)
+        if st != "ok":
+            raise engine.HarnessError("history prelude failed: %r" % (v,))
+        _HCTX[0], _HCTX[1] = ctx, 0
+    _HCTX[1] += 1
+    return _HCTX[0]
+
+
 class History:
     """One engine context + the reference state; step() executes a step on
     both and returns None or a failure record."""
 
     def __init__(self):
-        m = engine.load()
-        self.ctx = m.Context(time_limit=10)
-        st, v = run_eval(hist_prelude(), ctx=self.ctx)
+        self.ctx = hist_context()
+        st, v = run_eval("V = [[], [], [], []]; 0", ctx=self.ctx)
         if st != "ok":
-            raise engine.HarnessError("history prelude failed: %r" % (v,))
+            raise engine.HarnessError("history reset failed: %r" % (v,))
         self.vars = [R.Arr() for _ in range(NV)]
         self.recs = {}
         self.next_id = 0
@@ -871,6 +888,7 @@ def hist_task(task):
 
     cfg = settings(max_examples=n_examples, stateful_step_count=n_steps, database=None, deadline=None, derandomize=False,
                    report_multiple_bugs=False, print_blob=False, verbosity=Verbosity.quiet,
+                   phases=[hypothesis.Phase.generate, hypothesis.Phase.shrink],  # explain would trace every line
                    suppress_health_check=[HealthCheck.too_slow, HealthCheck.data_too_large])
     try:
         run_state_machine_as_test(hypothesis.seed(seed)(Machine), settings=cfg)
